@@ -93,18 +93,13 @@ def apply(case, files):
     rec_faults = [f for f in fl if f["kind"] in RECORD_LEVEL]
     out = dict(files)
     if rec_faults:
-        if inp["layout"] == "two":
-            plains = list(gen.records_plain(case))
-        elif interleaved:
-            plains = [gen.interleave_plain(case)]
-        else:
-            plains = [gen.records_plain(case)[0]]
+        plains = gen.plain_streams(case)
         for f in rec_faults:
             i = min(f.get("file", 0), len(plains) - 1)
             plains[i] = _apply_record_fault(f, plains[i], fastq, interleaved)
         for i, p in enumerate(paths):
             r = random.Random(case.get("member_seed", 0) * 31 + i)
-            out[p] = fmt.compress(inp["containers"][i], plains[i], rng=r, members=inp["members"][i])
+            out[p] = fmt.compress(inp["containers"][i], gen.style_plain(case, plains[i]), rng=r, members=inp["members"][i])
     for f in fl:
         if f["kind"] not in BYTE_LEVEL:
             continue
